@@ -27,14 +27,17 @@ type Obs struct {
 	Htm []HRun `json:"htm"` // visible words of Result.Node outside embed placeholders (runs carry chain / table flag)
 	Vis []Run  `json:"vis"` // visible words of Result.Node including embed placeholders, canonical runs
 	// joints: the source words after which the word goes on without a blank (10<sup>th</sup>), per view
-	TxtJ  []int  `json:"txtj"`
-	VisJ  []int  `json:"visj"`
-	Glued int    `json:"glued"` // number of joints in the text view
-	Vnp   []Run  `json:"vnp"`   // visible words of Result.Node outside embed placeholders, canonical runs
-	Ph    []Run  `json:"ph"`    // words inside embed placeholders
-	Phc   []HRun `json:"phc"`   // the visible words inside embed placeholders with their chains (a tweet is a quote)
-	Hid   []Run  `json:"hid"`   // words under hidden elements of the output
-	Cmt   []Run  `json:"cmt"`   // words inside comment nodes of the output
+	TxtJ  []int `json:"txtj"`
+	VisJ  []int `json:"visj"`
+	Glued int   `json:"glued"` // number of joints in the text view
+	// the outermost tables of the distilled HTML (outside embed placeholders): the source table their first known
+	// word comes from (0: none) and the rows / cells they hold
+	OutTables []OutTbl `json:"outtables"`
+	Vnp       []Run    `json:"vnp"` // visible words of Result.Node outside embed placeholders, canonical runs
+	Ph        []Run    `json:"ph"`  // words inside embed placeholders
+	Phc       []HRun   `json:"phc"` // the visible words inside embed placeholders with their chains (a tweet is a quote)
+	Hid       []Run    `json:"hid"` // words under hidden elements of the output
+	Cmt       []Run    `json:"cmt"` // words inside comment nodes of the output
 
 	MediaKept []bool `json:"mkept"` // per Src.Media entry: is it present in Result.Node
 	NImgOut   int    `json:"nimgout"`
@@ -101,6 +104,56 @@ type HRun struct {
 	B int  `json:"b"`
 	C int  `json:"c"` // interned output chain of ul/ol/li/blockquote/pre ancestors
 	T bool `json:"t"` // under a <table> in the output
+}
+
+type OutTbl struct {
+	T     int `json:"t"`
+	Rows  int `json:"rows"`
+	Cells int `json:"cells"`
+}
+
+func (p *projector) outTables(root *html.Node) {
+	var rec func(n *html.Node, inPh bool)
+	rec = func(n *html.Node, inPh bool) {
+		if n.Type == html.ElementNode {
+			if isPlaceholder(n) {
+				inPh = true
+			}
+			if n.Data == "table" && !inPh {
+				sh := tableShape(n)
+				t := 0
+				if p.src != nil {
+					for _, tok := range tokensOf(ttTextOf(n)) {
+						if nk, ok := p.src.tok[tok]; ok && nk[0] >= 1 && nk[0] <= len(p.src.Nodes) {
+							t = p.src.Nodes[nk[0]-1].Tbl
+							break
+						}
+					}
+				}
+				p.obs.OutTables = append(p.obs.OutTables, OutTbl{T: t, Rows: sh.Rows, Cells: sh.Cells})
+				return
+			}
+		}
+		for c := n.FirstChild; c != nil; c = c.NextSibling {
+			rec(c, inPh)
+		}
+	}
+	rec(root, false)
+}
+
+func ttTextOf(n *html.Node) string {
+	var sb strings.Builder
+	var rec func(*html.Node)
+	rec = func(m *html.Node) {
+		if m.Type == html.TextNode {
+			sb.WriteString(m.Data + " ")
+		}
+		for c := m.FirstChild; c != nil; c = c.NextSibling {
+			rec(c)
+		}
+	}
+	rec(n)
+	return sb.String()
 }
 
 type projector struct {
@@ -482,7 +535,7 @@ func digestResult(res *distiller.Result) map[string]string {
 // project builds the observation of a call. src may be nil (families that do not
 // use the token abstraction).
 func project(res *distiller.Result, err error, src *Src, chains, urls *interner) *Obs {
-	o := &Obs{Txt: []Run{}, Htm: []HRun{}, Vis: []Run{}, TxtJ: []int{}, VisJ: []int{}, Vnp: []Run{}, Ph: []Run{}, Phc: []HRun{}, Hid: []Run{}, Cmt: []Run{},
+	o := &Obs{Txt: []Run{}, Htm: []HRun{}, Vis: []Run{}, TxtJ: []int{}, VisJ: []int{}, OutTables: []OutTbl{}, Vnp: []Run{}, Ph: []Run{}, Phc: []HRun{}, Hid: []Run{}, Cmt: []Run{},
 		MediaKept: []bool{}, CI: []int{}, DomImg: []int{}, Placeholders: [][]string{},
 		Census: map[string]int{}, Dig: map[string]string{}}
 	if err != nil || res == nil {
@@ -503,6 +556,7 @@ func project(res *distiller.Result, err error, src *Src, chains, urls *interner)
 	o.NTitle = len(res.Title)
 	p.walk(res.Node, "", false, false, false)
 	p.lineBreak()
+	p.outTables(res.Node)
 	p.census(res.Node)
 	p.media(res.Node, src)
 	for _, u := range res.ContentImages {
